@@ -68,6 +68,7 @@ class Run:
         self.exhaustive_parts = []
         self.per_obl_timeout = float(os.environ.get("PV_TIMEOUT", 10 if tier == "quick" else 60))
         self.paths = 0
+        self.level_override = None  # a check whose substance is bounded claims "other" even when its few obligations discharge
         self.nonproved = 0
         self.section_budget = float(os.environ.get("PV_SECTION_BUDGET", 150 if tier == "quick" else 1200))
         self.deadline = self.t0 + (float(os.environ.get("PV_RUN_BUDGET", 600 if tier == "quick" else 3600)))
@@ -319,8 +320,13 @@ class Run:
         if n == 0:
             self.checker_failures.append("zero obligations generated")
         level = "proof" if (n > 0 and proved == n and not self.violations) else "other"
+        if self.level_override:
+            level = self.level_override
+        seen_k = {}
         for k, nm in self.known_hits:
-            print(f"KNOWN-FINDING: property={self.pid} {k.get('what', nm)} [{nm}]")
+            seen_k.setdefault(id(k), (k, []))[1].append(nm)
+        for k, nms in seen_k.values():
+            print(f"KNOWN-FINDING: property={self.pid} {k.get('what', nms[0])} [{len(nms)} obligation(s), e.g. {nms[0]}]")
         stale = [k for k in self.known if not any(k is kk for kk, _ in self.known_hits)]
         for k in stale:
             self.note(f"known finding not observed in this run (stale or not exercised in this tier): {k.get('obligation')}")
